@@ -172,14 +172,21 @@ def part_levels(tier):
   h = L['htf']
   from openhtf.util import logs  # pylint: disable=g-import-not-at-top
   viols, n = [], 0
+  cli_printed = []
   htf_logger = logging.getLogger('openhtf')
   levels = [logging.DEBUG, 15, logging.INFO, logging.WARNING, logging.ERROR]
   for verbosity in (0, 1, 2):
     for clock in ('normal', 'steps-back'):
       saved = (logs.CLI_LOGGING_VERBOSITY, list(htf_logger.handlers), htf_logger.level, logging.time)
       shim = None
+      from openhtf.util import console_output  # pylint: disable=g-import-not-at-top
+      import io, sys  # pylint: disable=g-import-not-at-top,multiple-imports
+      saved_cli = (console_output.CLI_QUIET, sys.stdout)
       try:
         logs.CLI_LOGGING_VERBOSITY = verbosity
+        # the CLI handler really prints (into a buffer): the harnesses otherwise run with console output silenced
+        console_output.CLI_QUIET = False
+        sys.stdout = io.StringIO()
         # (configure_logging is decorated call_once: a process configures logging once; here each case is "a process")
         getattr(logs.configure_logging, '__wrapped__', logs.configure_logging)()
         if clock == 'steps-back':
@@ -192,8 +199,11 @@ def part_levels(tier):
             shim.time_ns = lambda: int((real_time.time() + state['off']) * 1e9)
           logging.time = shim
 
+        names = {'fw': 'openhtf.core.levels'}
+
         def body(test):
           fw = logging.getLogger('openhtf.core.levels')
+          names['own'] = test.logger.name
           for i, lv in enumerate(levels):
             if shim is not None:
               state['off'] = [0.0, -2.0, 2.0, -4.0, 1.0][i]     # an NTP correction between two log lines
@@ -210,6 +220,13 @@ def part_levels(tier):
         want = [x for lv in levels for x in ((lv, 'own-%d' % lv), (lv, 'fw-%d' % lv))]
         n += 1
         case = {'verbosity': verbosity, 'clock': clock}
+        # ... and each record carries the name of the logger it was logged through, whatever the CLI handler printed
+        for r in rec.log_records:
+          wantname = names.get(r.message.split('-')[0]) if r.message.startswith(('own-', 'fw-')) else None
+          if wantname is not None and r.logger_name != wantname:
+            viols.append(('levels:logger-name:verbosity=%d' % verbosity, 'CLI verbosity %d: message %r logged through %r is recorded '
+                          'with logger name %r' % (verbosity, r.message, wantname, r.logger_name), {'part': 'levels', 'case': case}))
+            break
         if sorted(got) != sorted(want):
           missing = [w for w in want if w not in got]
           viols.append(('levels:lost-or-extra:verbosity=%d' % verbosity,
@@ -219,11 +236,74 @@ def part_levels(tier):
           viols.append(('levels:order:%s' % clock, 'CLI verbosity %d, clock %s: records are not in emission order: %r'
                         % (verbosity, clock, [m for _, m in got]), {'part': 'levels', 'case': case}))
       finally:
+        printed = sys.stdout.getvalue() if isinstance(sys.stdout, io.StringIO) else ''
+        console_output.CLI_QUIET, sys.stdout = saved_cli
+        if verbosity == 2 and clock == 'normal':
+          cli_printed.append('own-10' in printed)       # (vacuity guard, reported in the evidence sample)
         logs.CLI_LOGGING_VERBOSITY = saved[0]
         htf_logger.handlers[:] = saved[1]
         htf_logger.setLevel(saved[2])
         logging.time = saved[3]
-  return n, n, viols, [{'levels': levels, 'verbosities': [0, 1, 2], 'clocks': ['normal', 'steps-back']}]
+  return n, n, viols, [{'levels': levels, 'verbosities': [0, 1, 2], 'clocks': ['normal', 'steps-back'],
+                        'cli_handler_printed_at_verbosity_2': cli_printed}]
+
+
+def part_callshapes(tier):
+  """Every spelling of a logging call on every kind of record logger: level, logger name, source file and line of the
+  *calling* statement are recorded."""
+  import inspect  # pylint: disable=g-import-not-at-top
+  import warnings  # pylint: disable=g-import-not-at-top
+  L = progs.lib()
+  h = L['htf']
+  viols, n = [], 0
+  expected = []
+
+  def body(state):
+    test = state.test_api
+    uid = state.execution_uid
+    for kind, lg, dest in logger_kinds(test, state, uid, uid[:-3] + 'zzz'):
+      if dest is not True:
+        continue
+      for meth, level in (('debug', logging.DEBUG), ('info', logging.INFO), ('warning', logging.WARNING), ('warn', logging.WARNING),
+                          ('error', logging.ERROR), ('critical', logging.CRITICAL), ('exception', logging.ERROR), ('log', logging.WARNING)):
+        fn = getattr(lg, meth, None)
+        if fn is None:
+          continue      # (spelling not offered by this interpreter's logging module)
+        msg = 'shape-%s-%s' % (kind, meth)
+        with warnings.catch_warnings():
+          warnings.simplefilter('ignore')
+          if meth == 'log':
+            line = inspect.currentframe().f_lineno + 1
+            fn(logging.WARNING, msg)
+          elif meth == 'exception':
+            try:
+              raise ValueError('x')
+            except ValueError:
+              line = inspect.currentframe().f_lineno + 1
+              fn(msg)
+          else:
+            line = inspect.currentframe().f_lineno + 1
+            fn(msg)
+        expected.append((msg, level, lg.name, line, kind, meth))
+
+  body.__name__ = 'shapes'
+  test = h.Test(h.PhaseOptions(name='shapes', requires_state=True)(body))
+  cap = htf.Capture()
+  test.add_output_callbacks(cap)
+  test.execute()
+  rec = cap.records[0]
+  for msg, level, name, line, kind, meth in expected:
+    n += 1
+    got = [r for r in rec.log_records if r.message == msg or r.message.startswith(msg + '\n')]
+    case = {'logger': kind, 'method': meth}
+    if len(got) != 1:
+      viols.append(('callshapes:count:%s' % meth, '%s.%s(): %d records' % (kind, meth, len(got)), {'part': 'callshapes', 'case': case}))
+      continue
+    r = got[0]
+    if (r.level, r.logger_name, r.source, r.lineno) != (level, name, 'c19.py', line):
+      viols.append(('callshapes:metadata:%s' % meth, '%s.%s() at c19.py:%d: recorded level=%r logger=%r source=%r line=%r (expected %r %r)'
+                    % (kind, meth, line, r.level, r.logger_name, r.source, r.lineno, level, name), {'part': 'callshapes', 'case': case}))
+  return n, n, viols, [{'methods': 'debug info warning warn error critical exception log', 'loggers': 'the four record-logger kinds'}]
 
 
 def part_histories(tier):
@@ -436,10 +516,18 @@ def _levels_worker(tier):
   return part_levels(tier)
 
 
+def _callshapes_worker(tier):
+  return part_callshapes(tier)
+
+
 def run(tier):
   rep = common.Report(PID, tier, 'model_checking')
   progs.lib()
-  (n1, d1, v1, s1), (n2, d2, v2, s2), (n3, d3, v3, s3) = common.pmap(lambda f: f(tier), [_inputs_worker, _hist_worker, _levels_worker], chunksize=1)
+  (n1, d1, v1, s1), (n2, d2, v2, s2), (n3, d3, v3, s3), (n4, d4, v4, s4) = common.pmap(
+      lambda f: f(tier), [_inputs_worker, _hist_worker, _levels_worker, _callshapes_worker], chunksize=1)
+  rep.merge_violations(v4)
+  rep.add_part('call shapes x record-logger kinds', evaluations=n4, distinct_nontrivial=d4, states=n4, transitions=n4,
+               traces_validated_against_impl=n4, exhaustive=True, samples=s4 or [{}])
   rep.merge_violations(v3)
   rep.add_part('levels x verbosity x clock', evaluations=n3, distinct_nontrivial=d3, states=n3, transitions=n3,
                traces_validated_against_impl=n3, exhaustive=True, samples=s3 or [{}])
@@ -484,7 +572,8 @@ def replay(art):
     for b in bad:
       print('VIOLATED', b[0], b[1])
     return 1 if bad else 0
-  n, d, viols, _ = part_inputs('quick') if r.get('part') == 'inputs' else part_histories('quick')
+  part = {'inputs': part_inputs, 'levels': part_levels, 'callshapes': part_callshapes}.get(r.get('part'), part_histories)
+  n, d, viols, _ = part('quick')
   hit = [v for v in viols if v[0] == art['signature']]
   for v in hit[:3]:
     print('VIOLATED', v[0], v[1])
